@@ -178,8 +178,8 @@ section Joined
 variable {α R H : Type}
 
 /-- `JoinedCollider.RayCollisions`: bounds test, then `count += c.RayCollisions(r, f)` over the children. -/
-def joinedRay (admit : R → Bool) (parts : List (Collider R H)) (r : R) (cb : Bool) : Nat × List H :=
-  if !admit r then (0, [])
+def joinedRay (admits : R → Bool) (parts : List (Collider R H)) (r : R) (cb : Bool) : Nat × List H :=
+  if !admits r then (0, [])
   else parts.foldl (fun acc c => (acc.1 + (c.ray r cb).1, acc.2 ++ (c.ray r cb).2)) (0, [])
 
 /-- One step of the loop of `JoinedCollider.FirstRayCollision`:
@@ -192,13 +192,13 @@ def joinedStep [LT α] [DecidableLT α] (tOf : H → α) (best : Option H) (cand
     | some b => if tOf h < tOf b then some h else some b
 
 /-- `JoinedCollider.FirstRayCollision`. -/
-def joinedFirst [LT α] [DecidableLT α] (tOf : H → α) (admit : R → Bool) (parts : List (Collider R H)) (r : R) :
+def joinedFirst [LT α] [DecidableLT α] (tOf : H → α) (admits : R → Bool) (parts : List (Collider R H)) (r : R) :
     Option H :=
-  if !admit r then none
+  if !admits r then none
   else parts.foldl (fun best c => joinedStep tOf best (c.first r)) none
 
-def joined [LT α] [DecidableLT α] (tOf : H → α) (admit : R → Bool) (parts : List (Collider R H)) : Collider R H :=
-  { ray := joinedRay admit parts, first := joinedFirst tOf admit parts }
+def joined [LT α] [DecidableLT α] (tOf : H → α) (admits : R → Bool) (parts : List (Collider R H)) : Collider R H :=
+  { ray := joinedRay admits parts, first := joinedFirst tOf admits parts }
 
 end Joined
 
